@@ -55,6 +55,10 @@ pub struct LinkLedger {
     pub sync_reply_delivered: Vec<(u64, u32)>,
     /// virtual time at which the receiver was last handed a packet of this link
     pub last_delivery_ms: u64,
+    /// every instant at which the receiver was handed at least one packet of this link
+    pub delivery_ms: Vec<u64>,
+    /// index (per receiving socket) of every receive call that handed over >= 1 packet of this link
+    pub delivery_calls: Vec<u64>,
     pub ever_delivered: bool,
     pub last_input: Option<MMessage>,
     pub last_any: Option<MMessage>,
@@ -85,6 +89,8 @@ pub struct NetInner {
     pub forged_seq: u64,
     pub forged: u64,
     pub keep_payloads: bool,
+    /// time of every receive_all_messages call per socket (== every poll of that session)
+    pub recv_log: BTreeMap<Addr, Vec<u64>>,
     pub log: bool,
     /// (ms, from, to, class, start_frame/ack) of every packet, only when `log`
     pub trace: Vec<String>,
@@ -163,6 +169,7 @@ impl NetInner {
             forged_seq: 0,
             forged: 0,
             keep_payloads: false,
+            recv_log: BTreeMap::new(),
             log: false,
             trace: Vec::new(),
         }
@@ -316,6 +323,9 @@ impl NetInner {
 
     fn recv(&mut self, me: Addr) -> Vec<(Addr, Message)> {
         let now = now_ms();
+        let log = self.recv_log.entry(me).or_default();
+        let call = log.len() as u64;
+        log.push(now);
         let Some(q) = self.inbox.get_mut(&me) else {
             return Vec::new();
         };
@@ -341,6 +351,12 @@ impl NetInner {
                 let l = self.links.entry((p.from, me)).or_default();
                 l.ledger.delivered[class] += 1;
                 l.ledger.last_delivery_ms = now;
+                if l.ledger.delivery_ms.last() != Some(&now) {
+                    l.ledger.delivery_ms.push(now);
+                }
+                if l.ledger.delivery_calls.last() != Some(&call) {
+                    l.ledger.delivery_calls.push(call);
+                }
                 l.ledger.ever_delivered = true;
                 match &mm.body {
                     MBody::Input { start_frame, ack_frame, bytes, .. } => {
@@ -385,6 +401,8 @@ impl Default for LinkLedger {
             sync_req_sent: Vec::new(),
             sync_reply_delivered: Vec::new(),
             last_delivery_ms: 0,
+            delivery_ms: Vec::new(),
+            delivery_calls: Vec::new(),
             ever_delivered: false,
             last_input: None,
             last_any: None,
